@@ -195,8 +195,11 @@ TEXTS = {
                   'of the compared-name dict - every name exactly once, under exactly one group, with its own value - whose '
                   'first three groups list exactly the input / output / constant names; it succeeds whenever the role names '
                   'are distinct and present and raises KeyError when one is missing; MSE >= 0, = 0 on equal arguments, '
-                  'symmetric; the ratio term >= 0, = 0 on equal arguments and provably NOT symmetric (Reals). Tie: '
-                  'correspondence V runs add_new_signature_results against the model on real and adversarial dicts; the '
+                  'symmetric; the ratio term >= 0, = 0 on equal arguments and provably NOT symmetric (Reals); the '
+                  'aggregation loop of compare_model hands to the reduction, for every name and ANY number of test inputs, '
+                  'exactly one value per input that lists the name, in input order. Tie: '
+                  'correspondence V runs add_new_signature_results against the model on real and adversarial dicts and '
+                  'compare_model with compare_fn = 2^(input index) against the model\'s aggregate (1-6 inputs); the '
                   'oracle recomputes every value validate()/compare_model() report from its own interpreter runs.'),
         'note': ('Interpreter tensor contents are runtime; float32 reductions compared within rtol 1e-4, not bit-exactly. '
                  'Axioms: Reals axioms for the metric laws only.'),
